@@ -968,6 +968,7 @@ func (w *nlWorld) step(op string, a []int, cands []nlCand) nlStepOut {
 	comps := []string{}
 	var prev []int
 	same := 0
+	lastChange := time.Now()
 	match := func(proj []int) int {
 		for i, c := range cands {
 			if c.e.Res == got.res && nlEqInts(c.e.RN, got.rn) && nlEqStrs(c.e.Comps, comps) {
@@ -977,9 +978,10 @@ func (w *nlWorld) step(op string, a []int, cands []nlCand) nlStepOut {
 						same++
 					} else {
 						same = 0
+						lastChange = time.Now()
 					}
 					prev = proj
-					if same >= 12 {
+					if same >= 12 && time.Since(lastChange) > 60*time.Millisecond {
 						return i
 					}
 					continue
